@@ -6,6 +6,8 @@ Unit `all-cycles`: return_good=False, mask=None, one column of symbolic length N
                               a wrap   => label[0] = 0  and  label[s] = label[s-1] + [wrap at s]   for all 1 <= s < N
   (hence: every sample labelled, labels consecutive from 0 in temporal order, each label one contiguous run with no
    internal wrap, runs begin/end at a wrap or at an end of the recording), plus exception freedom.
+Unit `all-cycles,multi-column`: phase [N x M] with N, M symbolic; outer invariant: the columns already visited meet the column
+  contract, the others are still -1; inner invariant as above plus the frame condition "no other column changes" (e.pre).
 """
 import numpy as np
 import z3
@@ -19,10 +21,10 @@ ASSUMPTIONS = [
     'floats are mathematical reals; numpy ints unbounded',
     'assumed numpy contracts (cross-checked natively, not proved): where diff abs r_ zeros_like ones max slicing / slice assignment',
     'phase values lie in [0, 2pi] (precondition: the re-wrapping branch of get_cycle_vector is outside this unit)',
-    'single column in the unbounded proof (the per-column loop runs natively for one column); multi-column input is covered by the bounded stand-in only',
+    'unit `all-cycles`: single column (the per-column loop runs natively for one column), post in step form (label[s] = label[s-1] + [wrap at s]); unit `all-cycles,multi-column`: symbolic number of columns, both loops cut, post in boundary form over the np.where contract taken as a function of the column (register_pred_where: sorted, sound, complete list of the wrap positions of each column)',
     'is_good is replaced by its C13 contract at the call site (modular)',
 ]
-NOT_COVERED = ['multi-column phase input in the unbounded proof (bounded stand-in only)',
+NOT_COVERED = ['multi-column input with return_good=True or a mask in the unbounded proof (single column there, C13 units; bounded stand-in for several columns)',
                'phase values outside [0, 2pi] (re-wrapping branch) in the unbounded proof (bounded stand-in only)']
 
 STEP = z3.Real('phase_step')
@@ -81,6 +83,103 @@ def _post_all(c, args, kw, ret):
         c.oblige('post:nowrap_all_minus1', implies(and_(SBool(z3.ForAll([a], z3.Not(haswrap))), 0 <= s0, s0 < n), lab(s0) == -1), 'post')
 
 
+# ----------------------------------------------------------------------------- multi-column input: both loops cut
+#
+# Spec vocabulary: for column c the wrap positions are the strictly increasing list  WW(c, 0..KW(c)-1) + 1  of exactly the samples
+# s in [1, N) with |P(s, c) - P(s-1, c)| > step   (np.where contract as a function of the column: sorted, sound, complete).
+# Boundaries  B(c, 0) = 0,  B(c, k) = WW(c, k-1) + 1 (1 <= k <= KW(c)),  B(c, KW(c)+1) = N.
+# Contract per column:  KW(c) >= 1  =>  every sample of [B(c,k), B(c,k+1)) carries the label k   (k = 0..KW(c));   KW(c) = 0  =>  all -1.
+
+M = z3.Int('M')
+P2 = z3.Function('phase2', I, I, R)
+
+
+def _Wd(i, col):
+    """mask element the code hands to np.where for column col: |phase[i+1] - phase[i]| > step"""
+    d = P2(i + 1, col) - P2(i, col)
+    return z3.If(d >= 0, d, -d) > STEP
+
+
+def _mk_multi(c):
+    ph, P = mat('phase2', N, M)
+    s, q = z3.Ints('s q')
+    for ax in npshim.pi_axioms():
+        c.assume(ax)
+    c.assume(N >= 1)
+    c.assume(M >= 1)
+    c.assume(z3.ForAll([s, q], z3.And(0 <= P(s, q), P(s, q) <= 2 * PI), patterns=[P(s, q)]))
+    KW, WW, PP = npshim.register_pred_where(c, _Wd, z3.If(N >= 1, N - 1, 0), 'wraps')
+    c.ghost['KW'], c.ghost['WW'], c.ghost['PP'] = KW, WW, PP
+    return (ph,), dict(return_good=False, phase_step=SReal(STEP))
+
+
+def _Bc(col, k):
+    g = core.C().ghost
+    KW, WW = g['KW'], g['WW']
+    return z3.If(k <= 0, z3.IntVal(0), z3.If(k <= KW(col), WW(col, k - 1) + 1, N))
+
+
+def _outer_inv():
+    cq, sq, kq = z3.Int('oc'), z3.Int('os'), z3.Int('ok')
+    KWf = lambda: core.C().ghost['KW']
+    return [
+        ('shape', lambda e: and_(SBool(e.cycles.shape_e[0] == N), SBool(e.cycles.shape_e[1] == M), SBool(e.phase.shape_e[0] == N), SBool(e.phase.shape_e[1] == M))),
+        ('iirange', lambda e: and_(0 <= e.ii, e.ii <= e.phase.shape[1])),
+        ('done-columns:segment-k-carries-label-k', lambda e: SBool(z3.ForAll([cq, kq, sq], z3.Implies(
+            z3.And(0 <= cq, cq < lift(e.ii), KWf()(cq) >= 1, 0 <= kq, kq <= KWf()(cq), _Bc(cq, kq) <= sq, sq < _Bc(cq, kq + 1)), e.cycles.elem(sq, cq) == kq)))),
+        ('done-columns:every-sample-labelled', lambda e: SBool(z3.ForAll([cq, sq], z3.Implies(z3.And(0 <= cq, cq < lift(e.ii), KWf()(cq) >= 1, 0 <= sq, sq < N),
+                                                                                      z3.And(0 <= e.cycles.elem(sq, cq), e.cycles.elem(sq, cq) <= KWf()(cq)))))),
+        ('done-columns:no-wrap-no-cycles', lambda e: SBool(z3.ForAll([cq, sq], z3.Implies(z3.And(0 <= cq, cq < lift(e.ii), KWf()(cq) == 0, 0 <= sq, sq < N), e.cycles.elem(sq, cq) == -1)))),
+        ('later-columns-untouched', lambda e: SBool(z3.ForAll([cq, sq], z3.Implies(z3.And(lift(e.ii) <= cq, cq < M, 0 <= sq, sq < N), e.cycles.elem(sq, cq) == -1)))),
+    ]
+
+
+def _inner_multi():
+    cq, sq, kq = z3.Int('fc'), z3.Int('fs'), z3.Int('fk')
+    lab = lambda e, s: e.cycles.elem(s, lift(e.ii))
+    KWi = lambda e: core.C().ghost['KW'](lift(e.ii))
+    return [
+        ('count', lambda e: e.count == e.jj),
+        ('jjrange', lambda e: and_(0 <= e.jj, e.jj <= e.inds.shape[0] - 1)),
+        ('nbounds', lambda e: SBool(e.inds.shape_e[0] == KWi(e) + 2)),
+        ('bounds', lambda e: SBool(z3.ForAll([kq], z3.Implies(z3.And(0 <= kq, kq <= KWi(e) + 1), e.inds.elem(kq) == _Bc(lift(e.ii), kq))))),
+        ('done', lambda e: SBool(z3.ForAll([kq, sq], z3.Implies(z3.And(0 <= kq, kq < lift(e.jj), _Bc(lift(e.ii), kq) <= sq, sq < _Bc(lift(e.ii), kq + 1)), lab(e, sq) == kq)))),
+        ('rest', lambda e: SBool(z3.ForAll([sq], z3.Implies(z3.And(_Bc(lift(e.ii), lift(e.jj)) <= sq, sq < N), lab(e, sq) == -1)))),
+        ('labelled-so-far', lambda e: SBool(z3.ForAll([sq], z3.Implies(z3.And(0 <= sq, sq < _Bc(lift(e.ii), lift(e.jj))), z3.And(0 <= lab(e, sq), lab(e, sq) < lift(e.jj)))))),
+        ('other-columns-unchanged', lambda e: SBool(z3.ForAll([cq, sq], z3.Implies(z3.And(0 <= cq, cq < M, cq != lift(e.ii), 0 <= sq, sq < N),
+                                                                               e.cycles.elem(sq, cq) == e.pre.cycles.elem(sq, cq))))),
+        ('shape', lambda e: and_(SBool(e.cycles.shape_e[0] == N), SBool(e.cycles.shape_e[1] == M))),
+    ]
+
+
+def _post_multi(c, args, kw, ret):
+    KW, WW = c.ghost['KW'], c.ghost['WW']
+    c.oblige('post:shape', z3.And(ret.shape_e[0] == N, ret.shape_e[1] == M), 'post')
+    c0, k0, s0 = z3.Ints('c0 k0 s0')
+    lab = lambda s, col: ret.elem(s, col)
+    inr = z3.And(0 <= c0, c0 < M)
+    wrap_at = lambda s: _Wd(s - 1, c0)
+    # the labelling
+    c.oblige('post:segment-k-carries-label-k', z3.Implies(z3.And(inr, KW(c0) >= 1, 0 <= k0, k0 <= KW(c0), _Bc(c0, k0) <= s0, s0 < _Bc(c0, k0 + 1)), lab(s0, c0) == k0), 'post')
+    c.oblige('post:nowrap_all_minus1', z3.Implies(z3.And(inr, KW(c0) == 0, 0 <= s0, s0 < N), lab(s0, c0) == -1), 'post')
+    # what the boundaries are (facts of the spec vocabulary, stated so that the labelling above means what the property says)
+    c.oblige('post:boundaries-increase-from-0-to-N', z3.Implies(z3.And(inr, 0 <= k0, k0 <= KW(c0)), z3.And(_Bc(c0, k0) < _Bc(c0, k0 + 1), _Bc(c0, z3.IntVal(0)) == 0, _Bc(c0, KW(c0) + 1) == N)), 'post')
+    c.oblige('post:interior-boundaries-are-wraps', z3.Implies(z3.And(inr, 1 <= k0, k0 <= KW(c0)), wrap_at(_Bc(c0, k0))), 'post')
+    c.oblige('post:no-wrap-inside-a-segment', z3.Implies(z3.And(inr, 0 <= k0, k0 <= KW(c0), _Bc(c0, k0) < s0, s0 < _Bc(c0, k0 + 1)), z3.Not(wrap_at(s0))), 'post')
+    c.oblige('post:KW-is-zero-iff-no-wrap', z3.Implies(z3.And(inr, 1 <= s0, s0 < N, wrap_at(s0)), KW(c0) >= 1), 'post')
+    # consequences in the property's own words
+    c.oblige('post:all_labelled', z3.Implies(z3.And(inr, 1 <= k0, k0 < N, wrap_at(k0), 0 <= s0, s0 < N), z3.And(0 <= lab(s0, c0), lab(s0, c0) <= KW(c0))), 'post')
+    c.oblige('post:first_zero', z3.Implies(z3.And(inr, 1 <= k0, k0 < N, wrap_at(k0)), lab(z3.IntVal(0), c0) == 0), 'post')
+
+
+def multi_unit():
+    import emd.cycles as EC
+    u = Unit('get_cycle_vector[all-cycles,multi-column]', 'emd/cycles.py', 'get_cycle_vector', _mk_multi, _post_multi,
+             loops={0: {'inv': _outer_inv()}, 1: {'inv': _inner_multi()}}, module=EC,
+             observables=[{'kind': 'scalar', 'name': 'N'}, {'kind': 'scalar', 'name': 'M'}, {'kind': 'scalar', 'name': 'phase_step'}])
+    return u
+
+
 def units(tier):
     import emd.cycles as EC
     u = Unit('get_cycle_vector[all-cycles]', 'emd/cycles.py', 'get_cycle_vector', _mk_all, _post_all,
@@ -88,7 +187,7 @@ def units(tier):
              observables=[{'kind': 'scalar', 'name': 'N'}, {'kind': 'scalar', 'name': 'phase_step'},
                           {'kind': 'array', 'name': 'phase', 'shape': ['N']}])
     u.bound_scalars = [('N', 1)]
-    return [u]
+    return [u, multi_unit()]
 
 
 def model_witness(unit_name, model):
